@@ -409,6 +409,59 @@ func (w *writer) ReopenReader() (*reader, int64, int64) {""")]),
 			return message.Invalid, err
 		}""")]),
  ("getIndexMarked-independent: NewAt spelled out", [("pkg/segment/segment.go", """		Segment: s.NewAt(s.Offset),""", """		Segment: New(s.Dir, s.Offset, s.AutoSync),""")]),
+ ("FindByOffset: positive form of the bound test, indexed range", [("trim_offset.go", """		for _, msg := range msgs {
+			if msg.Offset >= before {
+				break
+			}
+			offsets[msg.Offset] = struct{}{}
+		}""", """		for i := range msgs {
+			if before > msgs[i].Offset {
+				offsets[msgs[i].Offset] = struct{}{}
+			} else {
+				break
+			}
+		}""")]),
+ ("FindByAge: positive form of the cut-off test", [("trim_age.go", """			if msg.Time.After(before) {
+				break SEARCH
+			}
+
+			offsets[msg.Offset] = struct{}{}""", """			if !msg.Time.After(before) {
+				offsets[msg.Offset] = struct{}{}
+				continue
+			}
+			break SEARCH""")]),
+ ("TrimByCount: switch form of the wrapper", [("trim_count.go", """func TrimByCount(ctx context.Context, l Log, max int) ([]Message, int64, error) {
+	offsets, err := FindByCount(ctx, l, max)
+	if err != nil {
+		return nil, 0, err
+	}
+	return l.Delete(offsets)""", """func TrimByCount(ctx context.Context, l Log, max int) ([]Message, int64, error) {
+	switch offsets, err := FindByCount(ctx, l, max); {
+	case err != nil:
+		return nil, 0, err
+	default:
+		return l.Delete(offsets)
+	}""")]),
+ ("FindUpdates: previous holder tested against nil, FindDeletes: len(Value) == 0", [("compact_updates.go", """			if prevMsgOffset, ok := keyOffset.Insert(msg.Key, msg.Offset); ok {
+				offsets[prevMsgOffset.(int64)] = struct{}{}
+			}""", """			prevMsgOffset, _ := keyOffset.Insert(msg.Key, msg.Offset)
+			if prevMsgOffset != nil {
+				offsets[prevMsgOffset.(int64)] = struct{}{}
+			}"""), ("compact_deletes.go", """			if _, ok := keyOffset.Search(msg.Key); ok {
+				continue
+			}
+
+			// not seen it (first instance) without value (e.g. delete)
+			if msg.Value == nil {
+				offsets[msg.Offset] = struct{}{}
+			}""", """			if _, seen := keyOffset.Search(msg.Key); !seen {
+				// not seen it (first instance) without value (e.g. delete)
+				if msg.Value == nil {
+					offsets[msg.Offset] = struct{}{}
+				}
+			} else {
+				continue
+			}""")]),
 ]
 
 def main():
